@@ -1,22 +1,28 @@
 import Req.Driver.L.C18Codec
 import Req.Client.Pipeline
+import Req.Client.Consume
 /-!
 Driver lane `c18pipe`: a scripted call (`Req.Pipeline.Stack`) → the caller-visible outcome and
 the per-attempt invocation log.
 
 ```
-c18pipe <fixes> <entry> <flags> <udReq> <builtin> <wrappers> <getBody> <transport> <clientResp> <reqResp> <retry>
-  fixes      3 bits  keepErr nilGuard digestRebind          ("111" = repaired code)
+c18pipe <fixes> <entry> <flags> <udReq> <builtin> <wrappers> <getBody> <transport> <clientResp> <reqResp> <retry> [<outFails>]
+  fixes      3 or 4 bits  keepErr nilGuard digestRebind [digestSave]   ("1111" = repaired code)
   entry      d | s | v | m                                   (Do, Send, verb helper, Must*)
-  flags      7 bits  builderErr unreplayable successTarget errorTarget commonErr autoRead hook
+  flags      7 or 8 bits  builderErr unreplayable successTarget errorTarget commonErr autoRead hook [save]
+             (save = Request.SetOutput / SetOutputFile)
   udReq      stages ';'  per-attempt acts ','   act = o | f<err>            ("-" = no stage)
   builtin    per-attempt acts ','               act = o | f<err>            ("-" = none)
   wrappers   stages ';'  acts ','   act = p | sn<err> | sf<err> | nn | pe<err> | pn<err> | sw | ps<err>
   getBody    per-attempt bits ','                                            ("-" = none)
-  transport  per-attempt ','   f<err> | r<status>:<custom>:<readOK>:<jsonOK>:<xmlOK>:<ct hex>
+  transport  per-attempt ','   f<err> | r<status>:<custom>:<readOK>:<jsonOK>:<xmlOK>:<ct hex>[:<xf>]
+             xf = - (no body transformer) | k (accepts) | n<err> (fails, nil body) | b<err> (fails, returns a body)
   clientResp stages ';'  acts ','   act = n | r<err> | s<err> | c
   reqResp    stages ';'  acts ','   act = n | r<err> | s<err> | c | d<chalOK>/<transport outcome>
-  retry      <maxRetries>:<conds>    conds = "-" (default rule) | bits, one per attempt
+  retry      <maxRetries>:<conds>[:<ctxDone>]    conds = "-" (default rule) | bits, one per attempt
+             maxRetries = n | u<fuel> (SetRetryCount(-1): unbounded; fuel = attempts the script describes)
+             ctxDone = bits, one per attempt: the context is done at the wait after that attempt
+  outFails   bits, one per attempt: creating / writing the output fails ("-" = never)
 ```
 -/
 namespace Req.Driver.L.C18
@@ -40,12 +46,14 @@ def parseRespAct (s : String) : Option RespAct :=
 def parseTOut (s : String) : Option TOut :=
   if s.startsWith "f" then (parseErr1 (s.drop 1).toString).map .fail
   else if s.startsWith "r" then
+    let mk (st cu rd jo xo ct xf : String) : Option TOut :=
+      match decodeInt st, parseState cu, parseBool rd, parseBool jo, parseBool xo, decodeHex ct, parseXf xf with
+      | some st, some cu, some rd, some jo, some xo, some ct, some xf =>
+        some (.resp { status := st, ct := ct, custom := cu, readOK := rd, jsonOK := jo, xmlOK := xo, xf := xf })
+      | _, _, _, _, _, _, _ => none
     match (s.drop 1).toString.splitOn ":" with
-    | [st, cu, rd, jo, xo, ct] =>
-      match decodeInt st, parseState cu, parseBool rd, parseBool jo, parseBool xo, decodeHex ct with
-      | some st, some cu, some rd, some jo, some xo, some ct =>
-        some (.resp { status := st, ct := ct, custom := cu, readOK := rd, jsonOK := jo, xmlOK := xo })
-      | _, _, _, _, _, _ => none
+    | [st, cu, rd, jo, xo, ct] => mk st cu rd jo xo ct "-"
+    | [st, cu, rd, jo, xo, ct, xf] => mk st cu rd jo xo ct xf
     | _ => none
   else none
 
@@ -86,27 +94,55 @@ def parseEntry : String → Option Entry
   | "m" => some .must
   | _ => none
 
-def parseRetry (s : String) : Option (Nat × Option (List Bool)) :=
+structure Retry where
+  n : Nat
+  unbounded : Bool
+  fuel : Nat
+  conds : Option (List Bool)
+  ctxDone : List Bool
+
+def parseRetry (s : String) : Option Retry :=
+  let go (n c x : String) : Option Retry :=
+    let conds : Option (Option (List Bool)) := if c == "-" then some none else (parseBits c).map some
+    let ctx : Option (List Bool) := if x == "-" then some [] else parseBits x
+    match conds, ctx with
+    | some conds, some ctx =>
+      if n.startsWith "u" then (n.drop 1).toNat?.map fun f => ⟨0, true, f, conds, ctx⟩
+      else n.toNat?.map fun k => ⟨k, false, 0, conds, ctx⟩
+    | _, _ => none
   match s.splitOn ":" with
-  | [n, c] =>
-    match n.toNat? with
-    | some n => if c == "-" then some (n, none) else (parseBits c).map fun l => (n, some l)
-    | none => none
+  | [n, c] => go n c "-"
+  | [n, c, x] => go n c x
   | _ => none
 
-def parseStack : List String → Option (Fixes × Stack)
-  | [fx, en, fl, ud, bi, wr, gb, tr, cr, rr, rt] =>
+def parseStack12 : List String → Option (Fixes × Stack)
+  | [fx, en, fl, ud, bi, wr, gb, tr, cr, rr, rt, ofl] =>
     match parseBits fx, parseEntry en, parseBits fl, parseStages parseReqAct ud, parseAtts parseReqAct bi,
           parseStages parseWAct wr, parseAtts parseBool gb, parseAtts parseTOut tr,
-          parseStages parseRespAct cr, parseStages parseRAct rr, parseRetry rt with
-    | some [f1, f2, f3], some en, some [b1, b2, b3, b4, b5, b6, b7], some ud, some bi, some wr, some gb, some tr,
-      some cr, some rr, some (n, conds) =>
-      some (⟨f1, f2, f3⟩,
-        { entry := en, builderErr := b1, unreplayable := b2, successTarget := b3, errorTarget := b4,
-          commonErr := b5, autoRead := b6, hook := b7, udReq := ud, builtin := bi, wrappers := wr,
-          getBodyFails := gb, transport := tr, clientResp := cr, reqResp := rr, maxRetries := n, conds := conds })
-    | _, _, _, _, _, _, _, _, _, _, _ => none
+          parseStages parseRespAct cr, parseStages parseRAct rr, parseRetry rt,
+          (if ofl == "-" then some [] else parseBits ofl) with
+    | some (f1 :: f2 :: f3 :: fmore), some en, some (b1 :: b2 :: b3 :: b4 :: b5 :: b6 :: b7 :: more), some ud, some bi, some wr, some gb, some tr,
+      some cr, some rr, some rt, some ofl =>
+      let save : Option Bool := match more with
+        | [] => some false
+        | [b] => some b
+        | _ => none
+      let f4 : Option Bool := match fmore with
+        | [] => some true
+        | [b] => some b
+        | _ => none
+      (save.bind fun save => f4.map fun f4 => (save, f4)).map fun (save, f4) =>
+        (⟨f1, f2, f3⟩,
+          { entry := en, builderErr := b1, unreplayable := b2, successTarget := b3, errorTarget := b4,
+            commonErr := b5, autoRead := b6, hook := b7, save := save, udReq := ud, builtin := bi, wrappers := wr,
+            getBodyFails := gb, transport := tr, clientResp := cr, reqResp := rr, maxRetries := rt.n,
+            unbounded := rt.unbounded, fuel := rt.fuel, conds := rt.conds, ctxDone := rt.ctxDone, outFails := ofl,
+            fixDigestSave := f4 })
+    | _, _, _, _, _, _, _, _, _, _, _, _ => none
   | _ => none
+
+def parseStack (args : List String) : Option (Fixes × Stack) :=
+  if args.length = 11 then parseStack12 (args ++ ["-"]) else parseStack12 args
 
 def showEv : Ev → Option String
   | .udReq i => some ("u" ++ toString i)
@@ -129,7 +165,8 @@ def showResp (r : Resp) : String :=
     | some h => (toString r.tag, toString h.status, showState (stateOf h))
     | none => ("-", "-", "U")
   "rerr=" ++ showErr r.err ++ " http=" ++ tag ++ " status=" ++ st ++ " state=" ++ state ++
-    " cached=" ++ showBool r.bodyCached ++ " res=" ++ showBool r.slots.result ++ " eslot=" ++ showSlotErr r.slots.error
+    -- X = a body is cached that is not the body of the exchange the response carries
+    " cached=" ++ (if r.bodyCached then (if r.http.isSome && r.bodyOf != r.tag then "X" else "1") else "0") ++ " res=" ++ showBool r.slots.result ++ " eslot=" ++ showSlotErr r.slots.error
 
 def showOut : Out → String
   | .crash atts => "crash log=" ++ showLog atts
@@ -137,6 +174,29 @@ def showOut : Out → String
   | .ret (some r) err hooks atts =>
     "ret err=" ++ showErr err ++ " hooks=" ++ toString hooks ++ " " ++ showResp r ++ " log=" ++ showLog atts
   | .mustPanic e hooks atts => "must err=" ++ showErr (some e) ++ " hooks=" ++ toString hooks ++ " log=" ++ showLog atts
+  | .exhausted atts => "exhausted log=" ++ showLog atts
+
+/-- `c18consume <uses> <c18pipe arguments…>`: the call, then the consumptions in order
+(`b` ToBytes, `s` ToString, `j` UnmarshalJson, `x` UnmarshalXml, `i` Into, `u` Unmarshal) →
+`errs=<e1>,<e2>,… rerr=<resp.Err at the end> cached=<bit>` (`nocall` when the call returns no
+response: crash / Must* panic / exhausted). -/
+def laneConsume : List String → String
+  | uses :: args =>
+    let us : Option (List Req.Consume.Use) := uses.toList.mapM fun c =>
+      if c == 'b' || c == 's' then some .toBytes
+      else if c == 'j' then some .unmarshalJson
+      else if c == 'x' then some .unmarshalXml
+      else if c == 'i' || c == 'u' then some .into
+      else none
+    match us, parseStack args with
+    | some us, some (fx, s) =>
+      match run fx s with
+      | .ret (some r) _ _ _ =>
+        let (r1, es) := Req.Consume.consumeAll r us
+        "errs=" ++ ",".intercalate (es.map showErr) ++ " rerr=" ++ showErr r1.err ++ " cached=" ++ showBool r1.bodyCached
+      | _ => "nocall"
+    | _, _ => "bad-op"
+  | _ => "bad-op"
 
 def lanePipe (args : List String) : String :=
   match parseStack args with
